@@ -125,3 +125,61 @@ Theorem C02_source_write_read_roundtrip : forall nd0 sg hdr f st,
 Proof. exact py_node_write_read_roundtrip. Qed.
 Print Assumptions C02_source_node_read.
 Print Assumptions C02_source_write_read_roundtrip.
+
+(* ---- the read side of the trie as the source has it (GenTrie.v, regenerated on every run from
+   LRUTrie.lru_node / node_parents_iter / windup_lru and the constructor and navigation methods of LRUTrieNode,
+   over the translated node reader of GenNode.v and the translated lru_iter of GenHelpers2.v).  For EVERY history,
+   on any storage object holding the trie file of the state reached (trep: a 128-byte header followed by the
+   encoded blocks, no register overflowing its field):
+   C02_source_lru_node_reachable  LRUTrie.lru_node(lru) returns the node object of exactly the node the tree model
+                                  finds (same block address, same reassembled stem), and None when the model
+                                  finds none;
+   C02_source_windup_reachable    LRUTrie.windup_lru(block of the node at path p) returns the concatenation of p;
+   C02_source_paths_agree         hence what lru_node finds winds up to the LRU looked for.
+   The generated loops never run out of fuel and never raise. *)
+From Traph Require GenTrie GenTrieFacts StoreFacts StoreFacts2 TstFacts.
+Import GenTrie GenTrieFacts.
+Theorem C02_source_lru_node_reachable : forall d rs h, Forall wf_op h ->
+  let s := run d rs h in
+  forall sg lru, trep (TraceDefs.files_of s) sg -> wf_lru lru ->
+  exists sg', trep (TraceDefs.files_of s) sg' /\
+    match nodeof s lru with
+    | Some n => exists n', py_trie_lru_node sg lru = Some (sg', Some n') /\
+                           nd_exists n' = true /\ nd_block n' = Some (addr n) /\ py_node_stem n' = stem n
+    | None => py_trie_lru_node sg lru = Some (sg', None)
+    end.
+Proof.
+  intros d rs h Hh s sg lru Hrep Hwf.
+  pose proof (StoreFacts2.run_Inv18 d rs h Hh) as Hinv. fold s in Hinv.
+  pose proof (StoreFacts2.run_root_first d rs h) as Hroot. fold s in Hroot.
+  destruct (py_trie_lru_node_spec s Hinv sg lru Hroot Hrep Hwf) as (sg' & Hrep' & H).
+  exists sg'. split; [exact Hrep'|]. unfold nodeof, find.
+  destruct (find_sub (lru_iter lru) (tr s)) as [t'|]; [|exact H].
+  destruct H as (n' & E & Hn). destruct t' as [|dn l c r]; [destruct Hn|].
+  cbn [node_of]. destruct Hn as (H1 & H2 & _ & H4). exists n'. repeat split; assumption.
+Qed.
+Theorem C02_source_windup_reachable : forall d rs h, Forall wf_op h ->
+  let s := run d rs h in
+  forall sg p n, trep (TraceDefs.files_of s) sg -> find p (tr s) = Some n ->
+  exists sg', py_trie_windup_lru sg (addr n) = Some (sg', concat p) /\ trep (TraceDefs.files_of s) sg'.
+Proof.
+  intros d rs h Hh s sg p n Hrep Hf.
+  exact (py_trie_windup_spec s (StoreFacts2.run_Inv18 d rs h Hh) sg p n Hrep Hf).
+Qed.
+Theorem C02_source_paths_agree : forall d rs h, Forall wf_op h ->
+  let s := run d rs h in
+  forall sg lru sg1 n1 a, trep (TraceDefs.files_of s) sg -> wf_lru lru ->
+  py_trie_lru_node sg lru = Some (sg1, Some n1) -> nd_block n1 = Some a ->
+  exists sg2, py_trie_windup_lru sg1 a = Some (sg2, lru).
+Proof.
+  intros d rs h Hh s sg lru sg1 n1 a Hrep Hwf E Hb.
+  destruct (C02_source_lru_node_reachable d rs h Hh sg lru Hrep Hwf) as (sg' & Hrep' & H). fold s in H, Hrep'.
+  destruct (nodeof s lru) as [n|] eqn:En; [|rewrite H in E; discriminate E].
+  destruct H as (n' & E' & _ & Hb' & _). rewrite E' in E. injection E as <- <-.
+  rewrite Hb' in Hb. injection Hb as <-.
+  destruct (C02_source_windup_reachable d rs h Hh sg' (lru_iter lru) n Hrep' En) as (sg2 & E2 & _).
+  exists sg2. fold s in E2. rewrite E2, (TstFacts.lru_iter_concat lru Hwf). reflexivity.
+Qed.
+Print Assumptions C02_source_lru_node_reachable.
+Print Assumptions C02_source_windup_reachable.
+Print Assumptions C02_source_paths_agree.
